@@ -144,3 +144,66 @@ theorem WF.contDel_ent_plain {g : Graph} (h : WF g) {c : Cont}
   exact ⟨g', by rw [← contDel_key_eq_ent hget]; exact hd, hl⟩
 
 end Nix.Store.Lemmas
+
+namespace Nix.Store.Lemmas
+open Nix.Store Nix.Store.Graph
+
+/-- **all views of a link list agree**: position, id (= link name), membership by id and by entity object address
+the `j`-th entry; so does the name of the target when no other target of the list carries it and it is not the id of a
+linked entity (sources of different parents may share a name) -/
+theorem WF.views_agree_link {g : Graph} (h : WF g) {c : Cont}
+    (hok : ∀ l ∈ contEntries g c, EntryOk g c.info l)
+    (hfl : c.info.flavour = .link ∨ c.info.flavour = .sourceLink)
+    (j : Nat) (hj : j < contLen g c) :
+    contGet g c (.pos j) = .ok ((contEntries g c)[j]'hj) ∧
+    g.entityId ((contEntries g c)[j]'hj).2 = some ((contEntries g c)[j]'hj).1 ∧
+    isUuid ((contEntries g c)[j]'hj).1 = true ∧
+    contGet g c (.str ((contEntries g c)[j]'hj).1) = .ok ((contEntries g c)[j]'hj) ∧
+    contHas g c (.str ((contEntries g c)[j]'hj).1) = .ok true ∧
+    contHas g c (.ent ((contEntries g c)[j]'hj).2) = .ok true ∧
+    (∀ nm, g.getAttr ((contEntries g c)[j]'hj).2 "name" = some nm →
+      (∀ l ∈ contEntries g c, g.getAttr l.2 "name" = some nm → l = (contEntries g c)[j]'hj) →
+      (isUuid nm = true → getByName g c.node nm = none) →
+      contGet g c (.str nm) = .ok ((contEntries g c)[j]'hj) ∧ contHas g c (.str nm) = .ok true) := by
+  have hnd := h.entries_nodup c
+  have hmem : (contEntries g c)[j]'hj ∈ contEntries g c := List.getElem_mem _
+  have hnpl : isPlainLike c.info.flavour = false := by rcases hfl with e | e <;> rw [e] <;> rfl
+  obtain ⟨hkind, _, hid⟩ := hok _ hmem
+  simp only [hnpl, Bool.false_eq_true, if_false] at hid
+  obtain ⟨n, _, hin⟩ := h.ids_wf _ _ hid
+  have hui : isUuid ((contEntries g c)[j]'hj).1 = true := hin ▸ isUuid_idStr n
+  have hb : getByName g c.node ((contEntries g c)[j]'hj).1 = some ((contEntries g c)[j]'hj) :=
+    find_by_key_nodup _ _ _ hmem hnd
+  have hget : contGet g c (.str ((contEntries g c)[j]'hj).1) = .ok ((contEntries g c)[j]'hj) := by
+    unfold contGet
+    rcases hfl with e | e <;> rw [e] <;> simp [hui, hb]
+  have hhas : contHas g c (.str ((contEntries g c)[j]'hj).1) = .ok true := by
+    unfold contHas
+    rcases hfl with e | e <;> rw [e] <;> simp [hui, hb]
+  refine ⟨contGet_pos_nonneg g c j hj, hid, hui, hget, hhas, ?_, ?_⟩
+  · rw [h.contHas_ent_link hok hfl _ hkind]
+    exact congrArg Except.ok (holds_iff.mpr ⟨_, hmem, rfl⟩)
+  · intro nm hnm huniq hnoclash
+    have hscan : scanByNameAttr g c.node nm = some ((contEntries g c)[j]'hj) := by
+      unfold scanByNameAttr
+      have hex : ∃ l, (cLinks g c.node).find? (fun l => g.getAttr l.2 "name" == some nm) = some l := by
+        cases hf : (cLinks g c.node).find? (fun l => g.getAttr l.2 "name" == some nm) with
+        | some l => exact ⟨l, rfl⟩
+        | none =>
+          have := List.find?_eq_none.mp hf _ hmem
+          simp [hnm] at this
+      obtain ⟨l, hl⟩ := hex
+      have hl1 : l ∈ contEntries g c := List.mem_of_find?_eq_some hl
+      have hl2 : g.getAttr l.2 "name" = some nm := by have := List.find?_some hl; simpa using this
+      rw [hl, huniq l hl1 hl2]
+    have hcond : (isUuid nm && (getByName g c.node nm).isSome) = false := by
+      cases hu : isUuid nm
+      · rfl
+      · simp [hnoclash hu]
+    constructor
+    · unfold contGet
+      rcases hfl with e | e <;> rw [e] <;> simp [hcond, hscan]
+    · unfold contHas
+      rcases hfl with e | e <;> rw [e] <;> simp [hcond, hscan]
+
+end Nix.Store.Lemmas
